@@ -39,6 +39,7 @@ class WorkerProc:
         env["PYTHONDONTWRITEBYTECODE"] = "1"
         env["PYTESTARCH_SRC"] = SRC
         self.hashseed = hashseed
+        self.history = []  # plan indices executed by this interpreter, in order
         self.proc = subprocess.Popen(
             [PY, "-X", "faulthandler", WORKER], stdin=subprocess.PIPE, stdout=subprocess.PIPE,
             stderr=subprocess.PIPE, env=env, text=True, bufsize=1, cwd=HERE)
@@ -175,6 +176,74 @@ def signatures_of(plan, hashseeds, pool, fresh=False):
                 div["hashseeds"] = [hashseeds[0], hashseeds[i]]
                 sigs.setdefault(divergence_sig(plan["prop"], div), {"inv": "I4", "detail": div})
     return sigs, outs
+
+
+# -- history dependence (I5) ---------------------------------------------------------------
+def history_divergence(plans, hashseed):
+    """Execute `plans` in order in ONE fresh interpreter and the last plan alone in another
+    fresh interpreter of the same hash seed.  Returns the first divergence of the last plan's
+    comparable log (dict) or None.  This is the whole I5 predicate: what a session observes
+    must not depend on which sessions the interpreter ran before."""
+    w1 = WorkerProc(hashseed)
+    try:
+        after = w1.request({"t": "plans", "plans": plans, "want_log_last": True})["results"][-1]
+    finally:
+        w1.close()
+    w2 = WorkerProc(hashseed)
+    try:
+        alone = w2.request({"t": "plan", "plan": plans[-1]})["results"][0]
+    finally:
+        w2.close()
+    if after["cmp_digest"] == alone["cmp_digest"]:
+        return None
+    return first_divergence(alone["comparable"], after["comparable"]) or {"where": "digest"}
+
+
+def i5_sig(prop, div):
+    return divergence_sig(prop, div).replace("/I4/", "/I5/")
+
+
+def minimise_history(plans, hashseed, sig, prop, budget_s=180):
+    """ddmin over the predecessor sessions (the last plan is the observed one)."""
+    t0 = time.time()
+    tests = 0
+    pred, last = list(plans[:-1]), plans[-1]
+    chunk = max(1, len(pred) // 2)
+    while chunk >= 1 and pred and time.time() - t0 < budget_s:
+        i = 0
+        progressed = False
+        while i < len(pred) and time.time() - t0 < budget_s:
+            cand = pred[:i] + pred[i + chunk:]
+            tests += 1
+            div = history_divergence(cand + [last], hashseed)
+            if div is not None and i5_sig(prop, div) == sig:
+                pred, progressed = cand, True
+            else:
+                i += chunk
+        if chunk == 1 and not progressed:
+            break
+        chunk = max(1, chunk // 2) if chunk > 1 else 1
+        if chunk == 1 and not progressed and len(pred) <= 1:
+            break
+    return pred + [last], tests
+
+
+def confirm_history(prop, seed, where, histories):
+    """Rebuild the history of the interpreter that produced an observation and test the I5
+    predicate on it. Returns (plans, hashseed, divergence) or None."""
+    from . import generators
+
+    hist = histories.get(tuple(where["wid"]))
+    if hist is None:
+        return None
+    indices = hist[: where["pos"] + 1]
+    if not indices or indices[-1] != where["index"]:
+        return None
+    plans = [generators.generate(prop, seed, i) for i in indices]
+    div = history_divergence(plans, where["hs"])
+    if div is None:
+        return None
+    return plans, where["hs"], div
 
 
 # -- plan reduction (delta debugging over the explicit plan) -----------------------------
@@ -443,6 +512,7 @@ class Run:
         self.q = queue.Queue()
         self.hashseeds_used = []
         self.canaries = set()
+        self.histories = {}  # (slot, generation) -> list of plan indices that worker executed
 
     def tasks_for_slot(self, slot):
         nb = (self.n_plans + self.batch - 1) // self.batch
@@ -471,10 +541,17 @@ class Run:
                     worker = WorkerProc(hs)
                     self.hashseeds_used.append(hs)
                     self.canaries.add(tuple(worker.hello["canary"]))
+                    self.histories[(slot, gen)] = worker.history
+                if r % 2 == 1:
+                    # replicas walk a batch in opposite directions, so that the same plan is
+                    # met after different predecessors in the two interpreters
+                    indices = list(reversed(indices))
+                pos = len(worker.history)
                 resp = worker.request({"t": "gen", "prop": self.prop, "seed": self.seed,
                                        "indices": indices})
+                worker.history.extend(indices)
                 done += 1
-                self.q.put(("res", b, r, worker.hashseed, resp["results"]))
+                self.q.put(("res", b, r, worker.hashseed, resp["results"], (slot, gen), pos))
         except HarnessError as e:
             self.q.put(("err", str(e)))
         except Exception as e:  # noqa: BLE001
@@ -501,6 +578,8 @@ class Run:
         candidates = {}  # sig -> Candidate (first occurrence)
         sig_counts = {}
         cover = set()
+        iso_seen = {}
+        i5_candidates = []
         cross_seed_divergences = 0
         errors = []
         alive = self.W
@@ -513,8 +592,22 @@ class Run:
                 errors.append(msg[1])
                 self.stop.set()
                 continue
-            _, b, r, hs, results = msg
-            for res in results:
+            _, b, r, hs, results, wid, pos = msg
+            for off, res in enumerate(results):
+                here = {"wid": wid, "pos": pos + off, "index": res["index"], "hs": hs}
+                res["_where"] = here
+                if res.get("group") is not None:
+                    # I5: the isolated outcome of one evaluation is the same in every session
+                    # over the same world, whichever interpreter (with whatever history) ran it
+                    for key, dig in (res.get("iso_outcomes") or {}).items():
+                        gk = (res["group"], key)
+                        ref = iso_seen.get(gk)
+                        if ref is None:
+                            iso_seen[gk] = (dig, here)
+                        elif ref[0] != dig:
+                            sig_counts["I5?"] = sig_counts.get("I5?", 0) + 1
+                            if len(i5_candidates) < 5:
+                                i5_candidates.append({"key": key, "a": ref[1], "b": here})
                 executions += 1
                 steps += res["steps"]
                 merge_stats(stats, res["stats"])
@@ -524,7 +617,7 @@ class Run:
                     if v["sig"] not in candidates:
                         candidates[v["sig"]] = Candidate(v["sig"], v["inv"], res["index"], [hs], v)
             slot = pending.setdefault(b, {})
-            slot[r] = (hs, results)
+            slot[r] = (hs, sorted(results, key=lambda x: x["index"]))
             if len(slot) == self.k:
                 reps = [slot[i] for i in range(self.k)]
                 del pending[b]
@@ -550,7 +643,8 @@ class Run:
                             sig_counts[key] = sig_counts.get(key, 0) + 1
                             if key not in candidates:
                                 candidates[key] = Candidate(key, "I4", res0["index"],
-                                                            [base_hs, hs_i], {})
+                                                            [base_hs, hs_i],
+                                                            {"where": [res0["_where"], ri["_where"]]})
             if time.time() - t0 > self.budget:
                 self.stop.set()
         wall = time.time() - t0
@@ -563,23 +657,43 @@ class Run:
             "distinct_hash_orders": len(self.canaries),
             "budget_exhausted": wall > self.budget,
             "cover": cover, "cross_seed_divergences": cross_seed_divergences,
+            "i5_candidates": i5_candidates, "histories": self.histories,
+            "iso_pairs_compared": len(iso_seen),
         }
 
 
-def write_replay(prop, seed, index, plan, hashseeds, sig, detail):
+def write_replay(prop, seed, index, plan, hashseeds, sig, detail, history=None):
     os.makedirs(os.path.join(HERE, "replays"), exist_ok=True)
     name = f"{prop}-{seed}-{index}-{hashlib.sha256(sig.encode()).hexdigest()[:8]}.json"
     path = os.path.join(HERE, "replays", name)
+    doc = {"property": prop, "seed": seed, "index": index, "signature": sig,
+           "hash_seeds": hashseeds, "detail": detail}
+    if history is not None:
+        doc["kind"] = "history"
+        doc["plans"] = history
+        doc["how"] = ("execute `plans` in order in one fresh interpreter (PYTHONHASHSEED = "
+                      "hash_seeds[0]); execute the last plan alone in another; the comparable "
+                      "logs of the last plan differ")
+    else:
+        doc["plan"] = plan
     with open(path, "w") as fh:
-        json.dump({"property": prop, "seed": seed, "index": index, "signature": sig,
-                   "hash_seeds": hashseeds, "plan": plan, "detail": detail}, fh, indent=1,
-                  sort_keys=True)
+        json.dump(doc, fh, indent=1, sort_keys=True)
     return path
 
 
 def replay(path):
     with open(path) as fh:
         rp = json.load(fh)
+    if rp.get("kind") == "history":
+        div = history_divergence(rp["plans"], rp["hash_seeds"][0])
+        got = i5_sig(rp["property"], div) if div else None
+        if got == rp["signature"]:
+            print(f"reproduced: {got}")
+            print(json.dumps(div, indent=1, sort_keys=True)[:4000])
+            print(f"VIOLATION property={rp['property']} replay={path}")
+            return EXIT_VIOLATION
+        print(f"not reproduced: expected {rp['signature']}, got {got}")
+        return EXIT_OK
     pool = ReplayPool()
     try:
         sigs, outs = signatures_of(rp["plan"], rp["hash_seeds"], pool, fresh=True)
@@ -613,7 +727,21 @@ def check(prop, tier, seed):
     pool = ReplayPool()
     reported = []
     known_hit = []
+    history_found = []
     try:
+        for c5 in out["i5_candidates"]:
+            found = None
+            for where in (c5["b"], c5["a"]):
+                found = confirm_history(prop, seed, where, out["histories"])
+                if found:
+                    break
+            if not found:
+                print(f"HARNESS-ERROR: isolated outcome of {c5['key']} differed between plans "
+                      f"{c5['a']['index']} and {c5['b']['index']} but neither a fresh interpreter "
+                      f"nor the interpreters' histories reproduce it")
+                return EXIT_HARNESS
+            history_found.append(found)
+            break  # one minimised history per run is enough
         for key, cand in sorted(out["candidates"].items()):
             from . import generators
 
@@ -623,9 +751,19 @@ def check(prop, tier, seed):
             if "/I4/?" in key:
                 real = [s for s in sigs if "/I4/" in s]
                 if not real:
-                    print(f"HARNESS-ERROR: divergence at plan {cand.index} under hash seeds "
-                          f"{hashseeds} did not reproduce in fresh interpreters")
-                    return EXIT_HARNESS
+                    # not a hash-seed effect: was it the history of one of the interpreters?
+                    found = None
+                    for where in cand.detail.get("where", []):
+                        found = confirm_history(prop, seed, where, out["histories"])
+                        if found:
+                            break
+                    if not found:
+                        print(f"HARNESS-ERROR: divergence at plan {cand.index} under hash seeds "
+                              f"{hashseeds} reproduced neither in fresh interpreters nor from "
+                              f"the interpreters' histories")
+                        return EXIT_HARNESS
+                    history_found.append(found)
+                    continue
                 sig = real[0]
             else:
                 sig = key
@@ -642,6 +780,24 @@ def check(prop, tier, seed):
             if sig not in sigs2:
                 small, hs_small, sigs2 = plan, hashseeds, sigs
             path = write_replay(prop, seed, cand.index, small, hs_small, sig, sigs2[sig])
+            reported.append((sig, path, tests))
+        done_sigs = set()
+        for plans, hs, div in history_found:
+            sig = i5_sig(prop, div)
+            if sig in done_sigs:
+                continue
+            done_sigs.add(sig)
+            if sig in open_sigs:
+                known_hit.append((sig, 1))
+                continue
+            small, tests = minimise_history(plans, hs, sig, prop)
+            div2 = history_divergence(small, hs)
+            if div2 is None or i5_sig(prop, div2) != sig:
+                small, div2 = plans, div
+            div2["hash_seed"] = hs
+            div2["sessions_before"] = len(small) - 1
+            path = write_replay(prop, seed, small[-1].get("index"), None, [hs], sig, div2,
+                                history=small)
             reported.append((sig, path, tests))
         samples = evidence_mod.collect_samples(prop, seed, pool)
     finally:
